@@ -8,9 +8,13 @@
        up: VerifyCommit of the commit the proposer includes (C02), MedianTime being later than the
        previous block time for commits of honest voters, Block.ValidateBasic of what NewBlock
        builds (C13).  Needs the C02/C13 models of commits and blocks; stated informally only.
-    3. The equivalence of the runtime artefacts (clean/dirty trie caches, GC mode, snapshot
-       layers, prefetcher, preimages) with the bare content has no statement in this model at
-       all: it is the PARTIAL part, sampled by the harness. *)
+    3. The equivalence of the remaining runtime artefacts (clean/dirty trie caches, GC mode,
+       prefetcher, preimages; of the snapshot tree: bloom filters, staleness, iterators, the
+       generator, the journal file) with the bare content has no statement in this model: it is
+       the PARTIAL part, sampled by the harness.  The DATA of the snapshot tree (diff layers,
+       destruct sets, flatten, diffToDisk, Cap, generated disk layer) and the StateDB overlay
+       that feeds it are modelled (ModelSnap.v) and proved equivalent to the tries
+       (C06_snapshot_config_free and the theorems after it in Properties.v). *)
 From Coq Require Import List Arith Permutation.
 From Kardia Require Import C06.Model.
 Import ListNotations.
